@@ -259,7 +259,7 @@ def run(ctx):
     for k in range(16):
         jobs.append((job_multi, (ctx.seed * 29 + k, 40 if quick else 600)))
     for k in range(16):
-        jobs.append((job_random, (ctx.seed * 37 + k, 25 if quick else 500)))
+        jobs.append((job_random, (ctx.seed * 37 + k, 25 if quick else 1500)))
     events = []
     with mp.get_context("fork").Pool(16, initializer=core._pool_init, initargs=(None,)) as pool:
         res = [pool.apply_async(f, (a,)) for f, a in jobs]
